@@ -419,9 +419,11 @@ func patternWithoutTrailingGlob(p *patternmatcher.Pattern) string {
 	// We use filepath.Separator here because patternmatcher.Pattern patterns
 	// get transformed to use the native path separator:
 	// https://github.com/moby/patternmatcher/blob/130b41bafc16209dc1b52a103fdac1decad04f1a/patternmatcher.go#L52
-	patStr = strings.TrimSuffix(patStr, string(filepath.Separator)+"**")
-	patStr = strings.TrimSuffix(patStr, string(filepath.Separator)+"*")
-	return patStr
+	// strip exactly one trailing glob: what remains of "a/*/**" is "a/*", which is not a literal prefix
+	if trimmed := strings.TrimSuffix(patStr, string(filepath.Separator)+"**"); trimmed != patStr {
+		return trimmed
+	}
+	return strings.TrimSuffix(patStr, string(filepath.Separator)+"*")
 }
 
 func isNotExist(err error) bool {
